@@ -2,7 +2,8 @@
 import hashlib, json, os, sys, time, traceback
 
 ROOT = os.path.dirname(os.path.dirname(os.path.abspath(__file__)))
-EVID = os.path.join(ROOT, "evidence")
+# evidence goes to /verif/evidence; the self-tests, which run the checks against PATCHED copies of the repository, point this elsewhere
+EVID = os.environ.get("VERIF_EVIDENCE_DIR") or os.path.join(ROOT, "evidence")
 REPLAY = os.path.join(EVID, "replay")
 KF_FILE = os.path.join(ROOT, "known_findings.json")
 
